@@ -13,7 +13,7 @@ import (
 )
 
 type params struct {
-	site      string // none | launch | msg | childKilled
+	site      string // none | launch | msg | childKilled | deep (the grandchild g fails on a message, a escalates, p decides)
 	cause     string // panic | failed
 	decision  vivid.SupervisionDecision
 	provider  bool
@@ -54,6 +54,18 @@ func scenario(p params, bounds []int) *vexp.Scenario {
 			launches := 0
 			g := &vsys.Script{Name: "g"}
 			a := &vsys.Script{Name: "a", Children: []*vsys.Script{g}, UseProvider: p.provider}
+			if p.site == "deep" {
+				gBooms := 0
+				g.OnMsg = func(act *vsys.Act, ctx vivid.ActorContext, m vsys.Msg) {
+					if m.ID == "boom" {
+						gBooms++
+						if gBooms == 1 {
+							fail(ctx, p.cause)
+						}
+					}
+				}
+				a.Strategy = w.Decider("/p/a", false, vivid.SupervisionDecisionEscalate)
+			}
 			a.Launch = func(act *vsys.Act, ctx vivid.ActorContext) {
 				launches++
 				if p.site == "launch" && (launches == 1 || (p.twice && launches == 2)) {
@@ -150,6 +162,12 @@ func scenario(p params, bounds []int) *vexp.Scenario {
 					tell("boom")
 				}
 			}
+			if p.site == "deep" {
+				w.Sys.Tell(w.Ref("/p/a/g"), vsys.Msg{ID: "g1"})
+				w.Sys.Tell(w.Ref("/p/a/g"), vsys.Msg{ID: "boom"})
+				w.Sys.Tell(w.Ref("/p/a/g"), vsys.Msg{ID: "g2"})
+				vrt.Yield()
+			}
 			tell("m2")
 			if p.site == "childKilled" {
 				w.Sys.Kill(w.Ref("/p/a/g"), false, "driver")
@@ -197,6 +215,16 @@ func scenario(p params, bounds []int) *vexp.Scenario {
 			}
 			vrt.Quiesce()
 			vsys.CheckLifecycle(w)
+			if p.decision != vivid.SupervisionDecisionEscalate {
+				// the supervisor /p is one-for-one and the failure is a's (or is escalated by a): a restart concerns /p/a and nobody else
+				for path, incs := range w.Incs {
+					for _, inc := range incs {
+						if inc.Restarted && path != "/p/a" {
+							x.Fail("restart-only-for-its-target", "%s was restarted (a new incarnation under the same context began with the restart) although the decision %s of /p concerned /p/a only", path, p.decision.String())
+						}
+					}
+				}
+			}
 			if len(w.PubsOf("ActorRestartedEvent")) > 0 {
 				x.Tag("restarted")
 			}
@@ -239,6 +267,16 @@ func build(tier string) []*vexp.Scenario {
 					p.site, p.cause, p.decision, p.provider = site, cause, d, prov
 					add(p)
 				}
+			}
+		}
+	}
+	// the failure of a grandchild escalated by its parent: the decision applies to the parent, the grandchild just dies with it
+	for _, cause := range []string{"panic", "failed"} {
+		for _, d := range decisions {
+			for _, prov := range []bool{false, true} {
+				p := base
+				p.site, p.cause, p.decision, p.provider = "deep", cause, d, prov
+				add(p)
 			}
 		}
 	}
